@@ -6,11 +6,23 @@
    the MaxPool2dWithSamePadding layers (which of them still hold padding="same");
    its first component is None when torch would raise.  `contracted heads H W` is
    the property's right-hand side: one (channels, H/os, W/os) per head, with
-   channels = parts | 2*edges | 1.  `fixed = false` is the pinned tree, `fixed = true`
-   the repair of proposed_fixes/C14_F20_F43.diff.  `pow2 n = 2^n`.
+   channels = parts | 2*edges | 1.  `pow2 n = 2^n`.
+
+   VARIANTS.  `fixed` = the head in_channels rule: false = the PINNED tree (before fix 14997bd),
+   true = the CURRENT tree (/repo HEAD; the head reads the decoder block that feeds it).
+   `fx : fixes` = the later repairs as flags: fx17 (5fcfc16), fx18 (9a2daa4), fx41 (f15d414) are
+   IN the current tree, fx42 (proposed_fixes/C14_F42.diff) is NOT.  So
+       current tree  =  build_model_fx true true (build_backbone_fx cur3 c),  cur3 = {17,18,41 on; 42 off}
+       pinned tree   =  build_model false (build_backbone c)  (= ..._fx with nofix).
+   The harness detects the variant on every run by replaying the corpus witnesses and evaluates
+   exactly these functions (Shapes.run (CModel fixed fx ...)).  Theorems about `fixed = false` /
+   `nofix` are HISTORIC: no code implements that variant any more; they document the repaired
+   defects and keep the check able to report a regression.
+   Open in the current tree: F42 and F44 (section "CURRENT TREE" below).
 
    valid_config / in_domain / selector_Fk are the booleans of Shapes.v; the harness
-   implements the same predicates in Python. *)
+   implements the same predicates in Python.  valid_config now also demands positive kernel
+   size, in_channels and head channel counts (round-4 review, finding 1). *)
 From Coq Require Import List ZArith QArith Bool.
 Import ListNotations.
 From SV Require Import C14.Shapes C14.Lemmas.
@@ -22,9 +34,12 @@ Proof. exact pow2_eq. Qed.
 Print Assumptions c14_pow2.
 
 (* ---------------------------------------------------------------------------
-   The property as given is FALSE of the pinned tree: a valid configuration and an
-   input whose sides are multiples of max_stride for which assembly or the forward
-   pass raises.  One witness per defect, each falling under exactly one selector. *)
+   HISTORIC (pinned tree, before 14997bd / 5fcfc16 / 9a2daa4 / f15d414): the property as
+   given was FALSE: a valid configuration and an input whose sides are multiples of
+   max_stride for which assembly or the forward pass raises.  One witness per defect,
+   each falling under exactly one of the selectors F17..F43 (7th entry: F44, see below).
+   F17, F18, F20, F41 (UNet and the top head of ConvNeXt/Swin-T), F43 are FIXED in /repo;
+   for the refutation of the CURRENT tree see c14_full_statement_refuted_current. *)
 Theorem c14_full_statement_refuted :
   exists c heads H W, valid_config c heads = true /\ in_domain c H W = true /\
                       meets_contract false c heads H W = false.
@@ -34,47 +49,48 @@ Print Assumptions c14_full_statement_refuted.
 (* F17: UNet, middle_block = False *)
 Theorem c14_refuted_F17 :
   refutes (w_unet 16 (2 # 1) 16 2 false 2) (get_head MSingle 3 2 2 2) 32 48
-          [true; false; false; false; false; false].
+          [true; false; false; false; false; false; false].
 Proof. exact refuted_F17. Qed.
 Print Assumptions c14_refuted_F17.
 
 (* F18: UNet, convs_per_block = 1 *)
 Theorem c14_refuted_F18 :
   refutes (w_unet 16 (2 # 1) 16 2 true 1) (get_head MSingle 3 2 2 2) 32 48
-          [false; true; false; false; false; false].
+          [false; true; false; false; false; false; false].
 Proof. exact refuted_F18. Qed.
 Print Assumptions c14_refuted_F18.
 
 (* F20: ConvNeXt tiny, stem_patch_stride 2, output stride 4 *)
 Theorem c14_refuted_F20 :
   refutes (w_convnext_tiny 2 4 16) (get_head MSingle 3 2 4 4) 32 48
-          [false; false; true; false; false; false].
+          [false; false; true; false; false; false; false].
 Proof. exact refuted_F20. Qed.
 Print Assumptions c14_refuted_F20.
 
 (* F41: a head at max_stride *)
 Theorem c14_refuted_F41 :
   refutes (w_unet 16 (2 # 1) 16 16 true 2) (get_head MCentroid 3 2 16 16) 32 48
-          [false; false; false; true; false; false].
+          [false; false; false; true; false; false; false].
 Proof. exact refuted_F41. Qed.
 Print Assumptions c14_refuted_F41.
 
 (* F42: Swin-T tiny, stem_patch_stride 4, documented max_stride 16, input 48 x 48 *)
 Theorem c14_refuted_F42 :
   refutes (w_swint_tiny 4 4 16) (get_head MSingle 3 2 4 4) 48 48
-          [false; false; false; false; true; false].
+          [false; false; false; false; true; false; false].
 Proof. exact refuted_F42. Qed.
 Print Assumptions c14_refuted_F42.
 
 (* F43: UNet filters 24, rate 3/2, max_stride 64, heads at 16 and 32 *)
 Theorem c14_refuted_F43 :
   refutes (w_unet 24 (3 # 2) 64 16 true 2) (get_head MBottomUp 3 2 16 32) 64 64
-          [false; false; false; false; false; true].
+          [false; false; false; false; false; true; false].
 Proof. exact refuted_F43. Qed.
 Print Assumptions c14_refuted_F43.
 
 (* ---------------------------------------------------------------------------
-   The strongest true statement: outside the six selectors the property holds for
+   HISTORIC form (any head rule, no later repair; superseded for the current tree by
+   c14_contract_fx_open).  Outside the six selectors the property holds for
    EVERY valid configuration of the three backbone families (any depth, any filters
    and rate, any stem stride, convs_per_block >= 2, both upsampling modes, any number
    and kind of heads), EVERY input whose sides are multiples of max_stride, and EVERY
@@ -88,7 +104,10 @@ Proof. exact contract_partial. Qed.
 Print Assumptions c14_contract_partial.
 
 (* (c) ... and these are the shapes of the targets the data pipeline generates for
-   the same head: (channels, ceil(H/os), ceil(W/os)) *)
+   the same head: (channels, ceil(H/os), ceil(W/os)).  HISTORIC hypotheses (all six selectors);
+   for the current tree: c14_contract_targets_fx, c14_unet_targets_fx.  The channel half is
+   definitional (target_shape takes its channels from head_channels, as the model head does);
+   the harness compares target_shape with the repo's target generators on every generated size. *)
 Theorem c14_contract_targets : forall fixed c heads H W,
   valid_config c heads = true -> in_domain c H W = true -> any_selector c heads H W = false ->
   exists m, build_model fixed (build_backbone c) heads = Some m /\
@@ -178,9 +197,9 @@ Proof. exact repaired_witnesses. Qed.
 Print Assumptions c14_repair_removes_F20_F43.
 
 (* ---------------------------------------------------------------------------
-   THE PROPOSED REPAIRS AS FLAGS (proposed_fixes/C14_F17.diff, _F18, _F41, _F42).
-   `fx : fixes` says which repairs the code has (nofix = the tree as it is; the harness
-   detects the flags by replaying the corpus witnesses); `build_unet = build_unet_fx nofix`,
+   THE REPAIRS AS FLAGS (F17 5fcfc16, F18 9a2daa4, F41 f15d414: in /repo; F42: proposed only).
+   `fx : fixes` says which repairs the code has (nofix = the pinned tree; cur3 = the current
+   tree; the harness detects the flags by replaying the corpus witnesses); `build_unet = build_unet_fx nofix`,
    `build_model = build_model_fx false`, `in_domain = in_domain_fx false` by definition, so
    every theorem above is the fx = nofix instance.  Head rule: the current tree's (fixed = true).
 
@@ -207,7 +226,10 @@ Proof. intros. apply (unet_contract_fx allfix); auto. Qed.
 Print Assumptions c14_unet_all_repairs.
 
 (* in explicit form: any depth, stem, filters, rate, both upsampling modes; convs_per_block
-   >= 2 or (1 and fx18); middle block or fx17; heads at 2^t, b <= t < n or (t = n and fx41) *)
+   >= 2 or (1 and fx18); middle block or fx17; heads at 2^t, b <= t < n or (t = n and fx41).
+   CONDITIONAL on `heads_sized_fx` (every head conv sized for its block): for fixed = true that
+   hypothesis is discharged (c14_unet_general_fx_fixed below), for fixed = false it is the
+   negation of F43. *)
 Theorem c14_unet_general_fx : forall fixed fx c s d b heads st h w,
   unet_valid_le c s d b -> cpb_ok (fx18 fx) (u_convs_per_block c) -> feeds fx c ->
   heads_ok_fx (fx41 fx) heads b (s + d) -> heads_sized_fx fixed fx c s d b heads -> 0 < h -> 0 < w ->
@@ -216,6 +238,16 @@ Theorem c14_unet_general_fx : forall fixed fx c s d b heads st h w,
     = Some (contracted heads (h * pow2 (s + d)) (w * pow2 (s + d))).
 Proof. exact unet_model_forward_fx. Qed.
 Print Assumptions c14_unet_general_fx.
+
+(* the same for the current head rule, no sizing hypothesis (review finding 7) *)
+Theorem c14_unet_general_fx_fixed : forall fx c s d b heads st h w,
+  unet_valid_le c s d b -> cpb_ok (fx18 fx) (u_convs_per_block c) -> feeds fx c ->
+  heads_ok_fx (fx41 fx) heads b (s + d) -> 0 < h -> 0 < w ->
+  exists m, build_model_fx (fx41 fx) true (build_unet_fx fx c) heads = Some m /\
+    fst (model_forward m st (u_in_channels c, h * pow2 (s + d), w * pow2 (s + d)))
+    = Some (contracted heads (h * pow2 (s + d)) (w * pow2 (s + d))).
+Proof. exact unet_general_fx_fixed. Qed.
+Print Assumptions c14_unet_general_fx_fixed.
 
 (* construction alone never needed the middle block: F17 is a forward-pass failure *)
 Theorem c14_unet_builds : forall fx c s d b,
@@ -231,9 +263,9 @@ Theorem c14_fx42_domain : forall c heads H W, valid_config c heads = true ->
 Proof. exact in_domain_fx_on. Qed.
 Print Assumptions c14_fx42_domain.
 
-(* all three families, every value of the flags.  PARTIAL for ConvNeXt / Swin-T: selector
-   F41 stays whatever fx41 is and selector F20 stays although the head rule is repaired
-   (for those two regions: c14_tv_top_head_fx, c14_repair_removes_F20_F43 -- finite). *)
+(* all three families, every value of the flags.  SUPERSEDED by c14_contract_fx_open (whose
+   selector is weaker: c14_residual_implies_open): here selector F41 stays for ConvNeXt / Swin-T
+   whatever fx41 is and selector F20 stays although the head rule is repaired. *)
 Theorem c14_contract_fx_partial : forall fx c heads H W,
   valid_config c heads = true -> in_domain_fx (fx42 fx) c H W = true ->
   residual_selector fx c heads H W = false ->
@@ -266,7 +298,8 @@ Proof. exact repaired_witnesses_fx. Qed.
 Print Assumptions c14_repairs_on_witnesses.
 
 (* FINITE (the seven shipped presets x stem stride 2, 4): a head on the encoder output
-   fails as the tree is and meets the contract with fx41 *)
+   failed in the pinned tree (before f15d414) and meets the contract with fx41; unbounded
+   form: c14_convnext_general_x / c14_swint_general_x *)
 Theorem c14_tv_top_head_fx :
   forallb (fun c =>
     let hs := get_head MBottomUp 3 2 (cfg_output_stride c) (effective_max_stride c) in
@@ -274,6 +307,106 @@ Theorem c14_tv_top_head_fx :
     meets_contract_fx true only41 c hs 64 96) tv_presets = true.
 Proof. exact tv_top_head_fx. Qed.
 Print Assumptions c14_tv_top_head_fx.
+
+(* ---------------------------------------------------------------------------
+   CURRENT TREE (round-4 review, findings 2-5).  Head rule repaired (fixed = true); flags cur3.
+
+   ConvNeXt / Swin-T in explicit form WITHOUT b <= e and WITH the head on the encoder output:
+   stem stride 2^e (e = 1, 2), ANY backbone output stride 2^b, heads at 2^t with b <= t and
+   (t <= e + 2, or t = e + 3 when the code has f15d414).  Unbounded in depths, widths, inputs,
+   pooling states.  Covers the former F20 region (b > e) and the former F41 region. *)
+Theorem c14_convnext_general_x : forall f41 c C4 ds e b heads st h w,
+  convnext_valid_x c C4 ds e b -> tv_heads_ok_fx e b f41 heads -> 0 < h -> 0 < w ->
+  exists m, build_model_fx f41 true (build_convnext c) heads = Some m /\
+    fst (model_forward m st (c_in_channels c, pow2 e * (2 * (2 * (2 * h))), pow2 e * (2 * (2 * (2 * w)))))
+    = Some (contracted heads (h * pow2 (e + 3)) (w * pow2 (e + 3))).
+Proof. exact convnext_model_forward_x. Qed.
+Print Assumptions c14_convnext_general_x.
+
+Theorem c14_swint_general_x : forall f41 c C4 ds nhs e b heads st h w,
+  swint_valid_x c C4 ds nhs e b -> tv_heads_ok_fx e b f41 heads -> 0 < h -> 0 < w ->
+  exists m, build_model_fx f41 true (build_swint c) heads = Some m /\
+    fst (model_forward m st (s_in_channels c, pow2 e * (2 * (2 * (2 * h))), pow2 e * (2 * (2 * (2 * w)))))
+    = Some (contracted heads (h * pow2 (e + 3)) (w * pow2 (e + 3))).
+Proof. exact swint_model_forward_x. Qed.
+Print Assumptions c14_swint_general_x.
+
+(* THE STRONGEST TRUE STATEMENT for the current head rule, all three families, every value of
+   the flags: the hypotheses left are the selectors of the repairs that are switched off, and
+   F44.  For the current tree (fx = cur3) it reads: valid, in-domain, not F42, not F44 =>
+   contract, from every pooling state.  `_open` = partial only by the two OPEN findings. *)
+Theorem c14_contract_fx_open : forall fx c heads H W,
+  valid_config c heads = true -> in_domain_fx (fx42 fx) c H W = true ->
+  open_selector fx c heads H W = false ->
+  exists m, build_model_fx (fx41 fx) true (build_backbone_fx fx c) heads = Some m /\
+    forall st, fst (model_forward m st (cfg_in_channels c, H, W)) = Some (contracted heads H W).
+Proof. exact contract_fx_open. Qed.
+Print Assumptions c14_contract_fx_open.
+
+Theorem c14_residual_implies_open : forall fx c heads H W,
+  residual_selector fx c heads H W = false -> open_selector fx c heads H W = false.
+Proof. exact residual_implies_open. Qed.
+Print Assumptions c14_residual_implies_open.
+
+(* (c) for the current variant: ... = the data pipeline's target shapes *)
+Theorem c14_contract_targets_fx : forall fx c heads H W,
+  valid_config c heads = true -> in_domain_fx (fx42 fx) c H W = true ->
+  open_selector fx c heads H W = false ->
+  exists m, build_model_fx (fx41 fx) true (build_backbone_fx fx c) heads = Some m /\
+    forall st, fst (model_forward m st (cfg_in_channels c, H, W))
+               = Some (map (fun hd => target_shape hd H W) heads).
+Proof. exact contract_targets_fx. Qed.
+Print Assumptions c14_contract_targets_fx.
+
+(* UNet of the current tree: EVERY valid configuration (no middle block, one conv per block,
+   head at max_stride included), no selector *)
+Theorem c14_unet_targets_fx : forall fx u heads H W,
+  valid_config (CfgUNet u) heads = true -> in_domain (CfgUNet u) H W = true ->
+  fx17 fx = true -> fx18 fx = true -> fx41 fx = true ->
+  exists m, build_model_fx (fx41 fx) true (build_unet_fx fx u) heads = Some m /\
+    forall st, fst (model_forward m st (u_in_channels u, H, W))
+               = Some (map (fun hd => target_shape hd H W) heads).
+Proof. exact unet_targets_fx. Qed.
+Print Assumptions c14_unet_targets_fx.
+
+Theorem c14_call_sequences_fx_open : forall fx c heads m (inputs : list (Z * Z)),
+  valid_config c heads = true ->
+  build_model_fx (fx41 fx) true (build_backbone_fx fx c) heads = Some m ->
+  Forall (fun hw => in_domain_fx (fx42 fx) c (fst hw) (snd hw) = true /\
+                    open_selector fx c heads (fst hw) (snd hw) = false) inputs ->
+  forall st,
+    model_calls m st (map (fun hw => (cfg_in_channels c, fst hw, snd hw)) inputs)
+    = map (fun hw => Some (contracted heads (fst hw) (snd hw))) inputs.
+Proof. exact call_sequences_fx_open. Qed.
+Print Assumptions c14_call_sequences_fx_open.
+
+(* The property as given is FALSE of the CURRENT tree too: two open findings.
+   F42 (known): Swin-T tiny, stem_patch_stride 4, max_stride 16 ("always 16"), 48 x 48. *)
+Theorem c14_full_statement_refuted_current :
+  exists c heads H W, valid_config c heads = true /\ in_domain_fx (fx42 cur3) c H W = true /\
+                      meets_contract_fx true cur3 c heads H W = false.
+Proof. exact full_statement_refuted_current. Qed.
+Print Assumptions c14_full_statement_refuted_current.
+
+Theorem c14_refuted_F42_current :
+  refutes_fx cur3 (w_swint_tiny 4 4 16) (get_head MSingle 3 2 4 4) 48 48
+             [false; false; false; false; true; false; false].
+Proof. exact refuted_F42_current. Qed.
+Print Assumptions c14_refuted_F42_current.
+
+(* F44 (known, new in round 4): ConvNeXt tiny, stem_patch_stride 2 (the encoder reaches 16),
+   max_stride 32, head at stride 32, 64 x 64: `strides.index(32)` raises at construction.
+   Valid (head stride <= max_stride; check_output_strides itself raises max_stride to the
+   coarsest head stride) and in-domain.  Fails with every flag on (allfix) as well: no
+   proposed repair covers it.  Selector F41 (historic) is a superset of F44. *)
+Theorem c14_refuted_F44_current :
+  refutes_fx cur3 (w_convnext_tiny 2 2 32) (get_head MSingle 3 2 32 32) 64 64
+             [false; false; false; true; false; false; true] /\
+  refutes_fx allfix (w_convnext_tiny 2 2 32) (get_head MSingle 3 2 32 32) 64 64
+             [false; false; false; true; false; false; true] /\
+  build_model_fx true true (build_backbone_fx allfix (w_convnext_tiny 2 2 32)) (get_head MSingle 3 2 32 32) = None.
+Proof. exact refuted_F44_current. Qed.
+Print Assumptions c14_refuted_F44_current.
 
 (* ---------------------------------------------------------------------------
    (d) the one stateful layer.  On an even side the computed pad is 0 and the
@@ -327,3 +460,33 @@ Example ex_c14_swint :
   valid_config c hs = true /\ in_domain c 64 32 = true /\ any_selector c hs 64 32 = false /\
   meets_contract false c hs 64 32 = true.
 Proof. exact ex_domain_swint. Qed.
+
+(* non-vacuity of c14_contract_fx_open for the current tree: UNet without middle block, one conv
+   per block, head at max_stride; ConvNeXt with output stride > stem stride (old F20 region);
+   Swin-T with a head on the encoder output (old F41 region) *)
+Example ex_c14_open_unet :
+  let c := w_unet 24 (3 # 2) 32 4 false 1 in let hs := get_head MBottomUp 5 4 4 32 in
+  valid_config c hs = true /\ in_domain_fx false c 64 96 = true /\
+  open_selector cur3 c hs 64 96 = false /\ meets_contract_fx true cur3 c hs 64 96 = true.
+Proof. exact ex_open_unet. Qed.
+Example ex_c14_open_convnext_b_gt_e :
+  let hs := get_head MBottomUp 3 2 4 8 in
+  valid_config w_convnext_custom hs = true /\ in_domain_fx false w_convnext_custom 32 48 = true /\
+  open_selector cur3 w_convnext_custom hs 32 48 = false /\ selector_F20 w_convnext_custom hs = true /\
+  meets_contract_fx true cur3 w_convnext_custom hs 32 48 = true.
+Proof. exact ex_open_convnext_b_gt_e. Qed.
+Example ex_c14_open_swint_top :
+  let c := w_swint_tiny 4 4 32 in let hs := get_head MBottomUp 3 2 4 32 in
+  valid_config c hs = true /\ in_domain_fx false c 64 96 = true /\
+  open_selector cur3 c hs 64 96 = false /\ selector_F41 c hs = true /\
+  meets_contract_fx true cur3 c hs 64 96 = true.
+Proof. exact ex_open_swint_top. Qed.
+(* degenerate sizes (kernel 0, in_channels <= 0, a head without channels) are not valid *)
+Example ex_c14_degenerate_invalid :
+  valid_config (CfgUNet {| u_in_channels := -3; u_kernel := 0; u_filters := 8; u_rate := 2 # 1; u_max_stride := 8;
+                           u_stem_stride := None; u_middle := true; u_up_interp := true; u_convs_per_block := 2;
+                           u_output_stride := 2 |}) (get_head MSingle (-2) 2 2 2) = false /\
+  valid_config (w_unet 8 (2 # 1) 8 2 true 2) (get_head MSingle 0 2 2 2) = false /\
+  valid_config (w_unet 8 (2 # 1) 8 2 true 2) (get_head MBottomUp 2 0 2 2) = false /\
+  valid_config (w_unet 8 (2 # 1) 8 2 true 2) (get_head MBottomUp 2 1 2 2) = true.
+Proof. exact ex_degenerate_invalid. Qed.
